@@ -300,6 +300,7 @@ const htlcPreimage = "aabbccddeeff00112233445566778899aabbccddeeff00112233445566
 //	sendpk|w|to|amount[|A]   SendToPubkey(to's receive key; A: SIG_ALL) -> token in flight
 //	htlc|w|amount            HTLCLockedProofs -> token in flight
 //	recv|w|ti|s              Receive / ReceiveHTLC token ti (s=1: swap to trusted mint)
+//	recvdup|w|ti|s           the same with a token that lists its first proof twice
 //	melt|w|amount|S/F/P      RequestMeltQuote(external invoice) + Melt with the backend answering S / F(ailed) / P(ending)
 //	lnfinal|w|mi|S/F         the backend settles / fails the pending payment of wallet w's melt mi
 //	checkmelt|w|mi           CheckMeltQuoteState
@@ -430,13 +431,20 @@ func (w *World) Exec(op string) error {
 				w.OnTokens(ps)
 			}
 		}
-	case "recv":
+	case "recv", "recvdup":
 		ti := atoi(arg(2))
 		if ti >= len(w.Tokens) {
 			return nil
 		}
 		t := w.Tokens[ti]
 		tok := w.tokenOf(t)
+		if arg(0) == "recvdup" && len(t.Proofs) > 0 {
+			// the same token with its first proof listed once more at the end (a sloppy or hostile sender): the mint will
+			// refuse the duplicate inputs, the token stays in flight; what the wallet puts on the wire is still observed
+			dup := *t
+			dup.Proofs = append(copyProofs(t.Proofs), copyProofs(t.Proofs[:1])...)
+			tok = w.tokenOf(&dup)
+		}
 		before := ww.W.GetBalance()
 		var got uint64
 		trusted := false
